@@ -8,6 +8,7 @@ has, and never reaches a division with a zero divisor.
 import Qsx.Proofs.NumScan
 import Qsx.Proofs.LpLexSafe
 import Qsx.Proofs.MpsLexSafe
+import Qsx.Proofs.LpLexProgress
 
 namespace Qsx.Props.C11
 open Qsx.Num
@@ -108,6 +109,14 @@ theorem mpslex_set_end_of_line (s : MpsLex.St) (h : Inv s) :
     (s.p < s.line.length → ∃ s', setEndOfLine s = some s' ∧ Inv s') ∧
     (s.p = s.line.length → ∃ s1, setEndOfLine s = some s1 ∧ s1.unterm = true ∧ ∃ s2, checkEndOfLine s1 = some (s2, false)) :=
   ⟨setEndOfLine_inside s h, setEndOfLine_at_terminator s h⟩
+
+/-- progress in both readers' field loops: a field delivered by the LP reader's next_field leaves strictly less input, and a
+field delivered by the MPS reader's next_field moves the cursor strictly forward on the same line - so the record loops
+`for (more = 1; more; more = next_field == 0)` of the section parsers end after at most `strlen (line)` rounds -/
+theorem lex_field_progress :
+    (∀ (s s' : LpLex.St) (a : Bool), LpLex.nextField s a = some (s', 0) → LpLex.remaining s' < LpLex.remaining s) ∧
+    (∀ (s s' : MpsLex.St), MpsLex.nextField s = some (s', 0) → s.p < s'.p ∧ s'.line = s.line) :=
+  ⟨fun _ _ _ h => LpLex.nextField_progress h, fun _ _ h => MpsLex.nextField_advances h⟩
 
 /-- key, first field, a coefficient and a bound read from two MPS lines -/
 def mpslexDemo : Option (List Char × List Char × Int × Bool × Int × Bool × Nat) := do
